@@ -177,8 +177,11 @@ int vf::engine_main(int argc, char **argv) {
   // search
   std::string lastmsg;
   bool ok = rc::check(std::string(HARNESS.id), [&]() {
-    // up to 12*size choices; elements use the full 16-bit range at nominal size
-    auto tapev = *rc::gen::scale(12.0, rc::gen::container<std::vector<uint16_t>>(rc::gen::arbitrary<uint16_t>()));
+    // up to 12*size choices. Elements are uniform over a bit width that grows with the size and is capped at the
+    // nominal size: rapidcheck's integer generator is only uniform up to its nominal size (100); asked for more
+    // (the container passes 12*size down) it returns values that are mostly one-bits, which skews every `% k`.
+    auto elem = rc::gen::withSize([](int size) { return rc::gen::resize(size < 100 ? size : 100, rc::gen::arbitrary<uint16_t>()); });
+    auto tapev = *rc::gen::scale(12.0, rc::gen::container<std::vector<uint16_t>>(elem));
     Tape t(tapev.data(), tapev.size());
     Fields f = HARNESS.gen(t);
     cur_set(f.text());
